@@ -12,9 +12,11 @@ type legacy117Handler struct {
 }
 
 func newLegacy117Handler(player Player, eventMgr event.Manager) *legacy117Handler {
-	return &legacy117Handler{
+	h := &legacy117Handler{
 		l: newLegacyHandler(player, eventMgr),
 	}
+	h.l.shouldDisconnect = h.shouldDisconnectForForcePack
+	return h
 }
 
 var _ Handler = (*legacy117Handler)(nil)
@@ -23,7 +25,7 @@ func (h *legacy117Handler) shouldDisconnectForForcePack(event *PlayerResourcePac
 	return h.l.shouldDisconnectForForcePack(event) && !event.OverwriteKick()
 }
 func (h *legacy117Handler) OnResourcePackResponse(bundle *ResponseBundle) (bool, error) {
-	return h.l.onResourcePackResponse(bundle, h.shouldDisconnectForForcePack)
+	return h.l.OnResourcePackResponse(bundle)
 }
 
 func (h *legacy117Handler) FirstAppliedPack() *Info {
